@@ -63,6 +63,17 @@ CHECKS.update({
    text="Valid schemas (hostile descriptions, interface chains, extension splits, scalar mappings in all config forms, schema types renamed to collide with identifiers of scalar mappings, allowUndefinedAsOptionalInput on/off) go through the real SchemaTypePrinter and ResolverTypePrinter. Both texts must parse; for every type x 4 targets the exported alias must denote the reference type (objects: __typename + wrapper-exact fields; abstract types: union of possible objects; enums: literals; inputs: readonly, optional iff nullable per option; scalars: configured type evaluated outside the namespace); the Resolvers map must have a resolver per field with the reference parent/args/context/result and a type resolver per abstract type over exactly its possible types.",
    note="trusts harness ts.rs (a self-test of hand-checked TypeScript facts runs first; failure = inconclusive) and refts.rs; array readonly-ness is not compared", ref="DESIGN.md §5 C10"),
 })
+CHECKS.update({
+ "C01": dict(cat="exploration", tech="runtime monitor: responses produced by a reference CollectFields/CompleteValue executor must be members of the emitted Result/fragment type (independent TypeScript-subset evaluator, observational membership)",
+   text="For generated valid schemas and documents (abstract parents, fragments through several levels, duplicate response keys, @skip/@include on literals and shared variables, list/non-null nests, scalar mappings) the real operation and schema declaration texts are parsed and the type of every TypedDocumentNode constant is evaluated. Every assignment of up to 4 boolean variables x every possible root object x 6 data choices (null bias 0..2, runtime types, list lengths 0..2) yields a response from the reference executor that must be a member of the emitted type.",
+   note="trusts harness exec.rs (appendix A.1 of DESIGN.md) and ts.rs (self-tested); documents with a duplicate response key and a variable conditional are attributed to one known finding", ref="DESIGN.md §5 C01"),
+ "C02": dict(cat="exploration", tech="runtime monitor: type-directed inhabitants of the emitted Result/fragment type and perturbed real responses must be producible per selection set (Ref_local) by the reference executor",
+   text="Same cases as C01. Inhabitants of the evaluated emitted type (each union arm, optional keys present/absent, null where admitted, each literal and a foreign one, lists of length 0/1) and perturbations of real responses (dropped key, wrong __typename or enum literal, object replaced by scalar, nested/un-nested list, extra key) that the emitted type admits must be accepted by Ref_local: some possible object type and some assignment of the boolean variables used in that selection set, recursively.",
+   note="as C01", ref="DESIGN.md §5 C02"),
+ "C09": dict(cat="exploration", tech="runtime monitor: both inclusions between the emitted Variables type (evaluated) and a reference CoerceVariableValues on an abstract input domain, per configuration",
+   text="For generated operations with variables (wrappers to depth 3, enums, recursive input objects, defaults) x allowUndefinedAsOptionalInput on/off x scalar mappings (single, send/receive, separate, ID remapped), candidate assignments are built per variable (explicit coercible value, null, absent, wrong atoms, wrong enum literal, single value for a list, input objects with one deviating / missing / unknown field) and checked: admitted => coercible; explicit coercible => admitted; omission of nullable variables admitted iff the option is on.",
+   note="whether a non-null variable with a default may be omitted is not constrained (as in the property); trusts exec.rs::input_candidates and ts.rs", ref="DESIGN.md §5 C09"),
+})
 NOT_YET = {}
 
 def main():
